@@ -30,6 +30,45 @@ var plainTypes = map[uint16]string{
 	wm.TUINFO: "UINFO", wm.TUID: "UID", wm.TGID: "GID", wm.TEID: "EID", wm.TNIMLOC: "NIMLOC", wm.TL32: "L32", wm.TLP: "LP", wm.TURI: "URI",
 	wm.TCAA: "CAA", wm.TGPOS: "GPOS",
 	wm.TNSEC: "NSEC", wm.TNSEC3: "NSEC3", wm.TNSEC3PARAM: "NSEC3PARAM", wm.TCSYNC: "CSYNC",
+	wm.TCERT: "CERT",
+}
+
+// CERT (RFC 4398 section 2.2): certificate type and algorithm are written as an unsigned decimal
+// integer or as a mnemonic. Certificate types: RFC 4398 section 2.1 (the IANA registry has had no
+// addition since). Algorithms: IANA "DNS Security Algorithm Numbers", column Mnemonic (RFC 4034
+// A.1, 5155, 5702, 5933, 6605, 8080, 9558, 9563). A mnemonic outside these tables is one that
+// another implementation cannot read.
+var certTypeMnemonic = map[uint16]string{1: "PKIX", 2: "SPKI", 3: "PGP", 4: "IPKIX", 5: "ISPKI", 6: "IPGP", 7: "ACPKIX", 8: "IACPKIX", 253: "URI", 254: "OID"}
+
+var algorithmMnemonic = map[uint8]string{1: "RSAMD5", 2: "DH", 3: "DSA", 5: "RSASHA1", 6: "DSA-NSEC3-SHA1", 7: "RSASHA1-NSEC3-SHA1", 8: "RSASHA256",
+	10: "RSASHA512", 12: "ECC-GOST", 13: "ECDSAP256SHA256", 14: "ECDSAP384SHA384", 15: "ED25519", 16: "ED448", 17: "SM2SM3", 23: "ECC-GOST12",
+	252: "INDIRECT", 253: "PRIVATEDNS", 254: "PRIVATEOID"}
+
+var certTypeCodes = []uint16{1, 2, 3, 4, 5, 6, 7, 8, 253, 254}
+var algorithmCodes = []uint8{1, 2, 3, 5, 6, 7, 8, 10, 12, 13, 14, 15, 16, 252, 253, 254}
+
+// readCertField reads a decimal integer or a registry mnemonic.
+func readCertField(it item, spec wm.FieldSpec, bits int) (uint64, error) {
+	if it.quoted {
+		return 0, fmt.Errorf("%s: quoted", spec.Go)
+	}
+	if v, err := strconv.ParseUint(it.text, 10, bits); err == nil {
+		return v, nil
+	}
+	if spec.Hint == "certtype" {
+		for code, m := range certTypeMnemonic {
+			if m == it.text {
+				return uint64(code), nil
+			}
+		}
+		return 0, fmt.Errorf("CERT type %q is neither a decimal integer nor a mnemonic of RFC 4398 section 2.1", it.text)
+	}
+	for code, m := range algorithmMnemonic {
+		if m == it.text {
+			return uint64(code), nil
+		}
+	}
+	return 0, fmt.Errorf("CERT algorithm %q is neither a decimal integer nor a mnemonic of the IANA registry", it.text)
 }
 
 // mnemonics an independent reader/writer of type bitmaps needs (IANA registry); every other type
@@ -200,6 +239,14 @@ func readRecord(line string) ([]byte, error) {
 				return nil, err
 			}
 			bits := map[wm.Kind]int{wm.U8: 8, wm.U16: 16, wm.U32: 32, wm.U48: 48, wm.U64: 64}[spec.K]
+			if typ == wm.TCERT && (spec.Hint == "certtype" || spec.Hint == "alg") {
+				v, err := readCertField(it, spec, bits)
+				if err != nil {
+					return nil, err
+				}
+				f.U = v
+				break
+			}
 			v, err := strconv.ParseUint(it.text, 10, bits)
 			if err != nil || it.quoted {
 				return nil, fmt.Errorf("%s: %q is not a decimal integer", spec.Go, it.text)
@@ -491,7 +538,14 @@ func writeRecord(t *rapid.T, r wm.Rec) string {
 		sep()
 		switch spec.K {
 		case wm.U8, wm.U16, wm.U32, wm.U48, wm.U64:
-			sb.WriteString(strconv.FormatUint(f.U, 10))
+			// CERT: mnemonic (as the registry spells it) or decimal integer
+			if m, ok := certTypeMnemonic[uint16(f.U)]; ok && spec.Hint == "certtype" && rapid.IntRange(0, 2).Draw(t, "certmn") != 0 {
+				sb.WriteString(m)
+			} else if m, ok := algorithmMnemonic[uint8(f.U)]; ok && r.Type == wm.TCERT && spec.Hint == "alg" && f.U != 17 && f.U != 23 && rapid.IntRange(0, 2).Draw(t, "algmn") != 0 {
+				sb.WriteString(m)
+			} else {
+				sb.WriteString(strconv.FormatUint(f.U, 10))
+			}
 		case wm.NameC, wm.NameU:
 			sb.WriteString(gen.SpellName(t, f.N))
 		case wm.Str:
